@@ -361,6 +361,25 @@ func runExchange(t *verifsim.Tape, cfg engine.Config, prop string) *engine.Outco
 		ncfg.DropElement = 350
 		ncfg.Droppable = func(loc, wire string) bool { return curM != nil && droppedAttr(d, curM, loc, wire) != nil }
 	}
+	var curPayload any
+	var curRW *bodyRewrite
+	if !faulty && !dropRun && (prop == "C04" || prop == "C14") && t.Draw("rewrite-run", 2) == 0 {
+		// the JSON body is edited on the wire: members dropped or nulled at any depth, values retyped, integers
+		// pushed out of range (rewrite.go)
+		kinds := []string{"drop", "drop", "null", "retype", "retype", "overflow"}
+		if prop == "C14" {
+			kinds = []string{"drop", "drop", "retype"}
+		}
+		ncfg.RewriteBodyRate = 600
+		ncfg.RewriteBody = func(body []byte) []byte {
+			if curM == nil {
+				return nil
+			}
+			nb, rw := planRewrite(t, d, curM, curPayload, body, kinds)
+			curRW = rw
+			return nb
+		}
+	}
 	if prop == "C08" && faulty {
 		ncfg = simnet.Config{Chunking: true, HeaderNoise: 250, RewriteRate: 500,
 			RewriteHeader: map[string][]string{"Goa-View": {"default", "tiny", "full", "extended", "nosuchview", ""}}}
@@ -599,7 +618,7 @@ func runExchange(t *verifsim.Tape, cfg engine.Config, prop string) *engine.Outco
 			}
 			o.Features["second_route_used"]++
 		}
-		curM = m
+		curM, curPayload, curRW = m, payload, nil
 		if mode != "valid" {
 			curM = nil // elements are only dropped from otherwise valid requests
 		}
@@ -665,6 +684,10 @@ func runExchange(t *verifsim.Tape, cfg engine.Config, prop string) *engine.Outco
 		}
 		if ex.DroppedLoc != "" {
 			judgeDropped(o, w, d, name, s, m, ex, payload, prop, where)
+			continue
+		}
+		if ex.BodyRewritten && curRW != nil {
+			judgeRewritten(o, w, d, name, s, m, ex, payload, curRW, prop, where)
 			continue
 		}
 		if hardFault && prop != "C08" {
@@ -1057,7 +1080,9 @@ func classifyFailure(d *spec.Design, m *spec.Method, payload, result any, ex *si
 	if strings.Contains(msg, "length of") && strings.Contains(msg, "invalid response") && absentMinLen(m.Result, result) {
 		return "optional-collection-with-min-length-left-unset:response"
 	}
-	if strings.Contains(msg, "length of") && ex.Status == 400 && absentMinLen(m.Payload, payload) {
+	// (when the method also declares an error of its own on status 400 the client reads the server's invalid_length
+	// answer as that error and complains about ITS shape: the server's answer is what tells)
+	if (strings.Contains(msg, "length of") || strings.Contains(string(ex.RespBody), `"name":"invalid_length"`)) && ex.Status == 400 && absentMinLen(m.Payload, payload) {
 		return "optional-collection-with-min-length-left-unset:request"
 	}
 	return errName(cerr) + fmt.Sprintf(":status=%d", ex.Status)
